@@ -474,7 +474,7 @@ fn judge(s: &Scenario, o: &Outcome, salt: u64) -> Result<(), Fail> {
 /// Scenarios on the process-wide static behind nfs_voucher: the writer is
 /// observe_file_time (try_update) or get_base_time far in the future
 /// (blocking update); the solo call is get_base_time_unlocked.
-fn run_static_scenario(freeze_at: usize, blocking: bool, dir: &std::path::Path, round: u64) -> Result<(bool, usize, usize, usize, bool), Fail> {
+fn run_static_scenario(freeze_at: usize, blocking: bool, solo_observes: bool, dir: &std::path::Path, round: u64) -> Result<(bool, usize, usize, usize, bool), Fail> {
     use std::os::unix::fs::PermissionsExt;
     *CTL.lock().unwrap_or_else(|e| e.into_inner()) = Some(Ctl::default());
     let path = dir.join("trusted.file");
@@ -503,10 +503,25 @@ fn run_static_scenario(freeze_at: usize, blocking: bool, dir: &std::path::Path, 
     wait_until(|c| c.frozen || c.w1_done, "static writer reaching its freeze point")?;
     let (frozen, lock_held, events_total) = with_ctl(|c| (c.frozen, c.lock_holder == Some(Role::Writer1), c.w1_events));
     let (tx, rx) = std::sync::mpsc::channel();
+    let solo_path = dir.join("trusted.file");
     let solo = std::thread::spawn(move || {
         ROLE.with(|r| *r.borrow_mut() = Some(Role::Solo));
         SOLO_LOG.with(|l| l.borrow_mut().clear());
-        let r = std::panic::catch_unwind(|| nfs_voucher::get_base_time_unlocked(time::OffsetDateTime::now_utc()));
+        let r = std::panic::catch_unwind(|| {
+            if solo_observes {
+                // the module-level try_update path: must not wait either
+                match std::fs::File::open(&solo_path) {
+                    Ok(f) => match nfs_voucher::observe_file_time(&f) {
+                        Ok((_, Some(pair))) => Ok(pair),
+                        Ok((_, None)) => Err(std::io::Error::other("observe_file_time reported nothing for a trusted device")),
+                        Err(e) => Err(e),
+                    },
+                    Err(e) => Err(e),
+                }
+            } else {
+                nfs_voucher::get_base_time_unlocked(time::OffsetDateTime::now_utc())
+            }
+        });
         ROLE.with(|r| *r.borrow_mut() = None);
         let log = SOLO_LOG.with(|l| l.borrow().clone());
         let _ = tx.send((r.map_err(|_| crate::ctx::take_last_panic()), log));
@@ -527,8 +542,19 @@ fn run_static_scenario(freeze_at: usize, blocking: bool, dir: &std::path::Path, 
         Ok(Err(e)) => return Err(v("unlocked-failed", format!("get_base_time_unlocked failed: {}", e))),
         Ok(Ok(p)) => p,
     };
-    let locks = log.iter().filter(|e| !e.after && matches!(e.op, Op::Lock | Op::TryLock)).count();
+    let blocking_locks = log.iter().filter(|e| !e.after && e.op == Op::Lock).count();
+    let try_locks = log.iter().filter(|e| !e.after && e.op == Op::TryLock).count();
+    let locks = blocking_locks + try_locks;
     let steps = log.iter().filter(|e| e.after && matches!(e.op, Op::Load | Op::Store)).count();
+    if solo_observes {
+        if blocking_locks != 0 || try_locks != 1 {
+            return Err(v("try_update-lock-attempts", format!("observe_file_time performed {} blocking lock(s) and {} non-blocking attempt(s) (expected 0 and 1)", blocking_locks, try_locks)));
+        }
+        if voucher_bits(pair.1) != voucher_bits(CRATE_PARAMS.vouch(pair.0)) {
+            return Err(v("torn", "observe_file_time returned a pair whose voucher does not match".into()));
+        }
+        return Ok((frozen, events_total, steps, locks, lock_held));
+    }
     if locks != 0 {
         return Err(v("reader-locks", format!("get_base_time_unlocked performed {} lock operation(s)", locks)));
     }
@@ -659,11 +685,11 @@ pub fn run(ctx: &mut Ctx) {
             Err(e) => ctx.inconclusive(format!("cannot establish a trusted path for the static scenarios: {}", e)),
             Ok(()) => {
                 let mut round = 0u64;
-                for blocking in [false, true] {
+                for (blocking, solo_observes) in [(false, false), (true, false), (true, true), (false, true)] {
                     for freeze_at in 0..24usize {
                         round += 1;
                         ctx.cases += 1;
-                        match run_static_scenario(freeze_at, blocking, &dir, round) {
+                        match run_static_scenario(freeze_at, blocking, solo_observes, &dir, round) {
                             Err(f) if f.inconclusive => ctx.inconclusive(f.what),
                             Err(f) => ctx.violate(&["C18"], &f.sig, f.what, Json::obj().with("kind", Json::s("park-static")).with("index", Json::U(1 << 40)).with("writer", Json::s(if blocking { "get_base_time(now + 1h)" } else { "observe_file_time" })).with("freeze_at", Json::U(freeze_at as u64))),
                             Ok((frozen, _events, _steps, _locks, held)) => {
@@ -673,7 +699,10 @@ pub fn run(ctx: &mut Ctx) {
                                     if held {
                                         ctx.feature("park.static_writer_frozen_holding_lock");
                                     }
-                                    ctx.signature(mix(&[0x5747, blocking as u64, freeze_at as u64]));
+                                    if solo_observes {
+                                        ctx.feature("park.static_solo_observe_file_time");
+                                    }
+                                    ctx.signature(mix(&[0x5747, blocking as u64, solo_observes as u64, freeze_at as u64]));
                                 }
                             }
                         }
